@@ -111,7 +111,7 @@ def domains(scratch=None):
         INT: [0, 1, 2],
         STR: ["", "a", "ab", "é\n"],
         BYTES: [b"", b"a\xff", b"a"],
-        LIST: [[], [1], [1, 2], [2, 1], [1, 1], (1, 2), (1, 2, 2)],
+        LIST: [[], [1], [1, 2], [2, 1], [1, 1], (1, 2), (1, 2, 2), [2, 1, 1]],
         DICT: [{}, {"x": 1}, {"x": 1, "y": 2}, {"y": 1}, {"x": 2}, {"x": 1, "y": 0}, {"z": None}, {"x": 0}],
         OBJ: [Obj(a=1, b=2), Obj(a=1, b=1), Obj(a=0, b=2)],
         EXC: [_exc_info(ValueError("a")), _exc_info(KeyError("b")), _exc_info(KeyboardInterrupt())],
@@ -201,6 +201,8 @@ def leaves(scratch=None):
     add(LIST, "Equals([1, 2])", lambda: M.Equals([1, 2]), lambda v: v == [1, 2])
     add(LIST, "SameMembers([2, 1])", lambda: M.SameMembers([2, 1]), lambda v: sorted(v) == [1, 2])
     add(LIST, "SameMembers([1, 1])", lambda: M.SameMembers([1, 1]), lambda v: sorted(v) == [1, 1])
+    # same length, same distinct members, different repetitions: (1, 2, 2) must not match
+    add(LIST, "SameMembers([1, 1, 2])", lambda: M.SameMembers([1, 1, 2]), lambda v: sorted(v) == [1, 1, 2])
     add(LIST, "Contains(1)", lambda: M.Contains(1), lambda v: 1 in v)
     add(LIST, "ContainsAll([1, 2])", lambda: M.ContainsAll([1, 2]), lambda v: 1 in v and 2 in v)
     add(LIST, "HasLength(2)", lambda: M.HasLength(2), lambda v: len(v) == 2)
